@@ -1333,6 +1333,32 @@ class MeshInterp(Interp):
             return Dual(_A.atom("pi"))
         if name in ("jax.scipy.linalg.solve", "scipy.linalg.solve", "jax.numpy.linalg.solve", "numpy.linalg.solve"):
             return self._solve(self.num(args[0]), self.num(args[1]))
+        if name in ("jax.lax.switch",):
+            # lax.switch(index, branches, *operands): the index is clamped into the range of the branch list (documented semantics);
+            # only a concrete index is followed; a clamped selection is recorded (a derived fact the caller may want to know)
+            idx = args[0] if args else kwargs.get("index")
+            brs = args[1] if len(args) > 1 else kwargs.get("branches")
+            ops = list(args[2:]) + ([kwargs["operand"]] if "operand" in kwargs else [])
+            if isinstance(idx, Arr) and idx.size() == 1:
+                idx = idx.data[0]
+            c = const_of(idx)
+            if c is None or isinstance(idx, bool) or Fraction(c).denominator != 1:
+                raise EvalError("lax.switch on an index that is not a concrete integer")
+            brs = list(self.iterate(brs))
+            if not brs:
+                raise Raised("lax.switch: empty branch list")
+            k = int(c)
+            kk = min(max(k, 0), len(brs) - 1)
+            if kk != k:
+                self.__dict__.setdefault("switch_clamped", []).append((k, len(brs)))
+            return self.call(brs[kk], ops, {})
+        if name in ("jax.lax.cond",):
+            pred = args[0] if args else kwargs.get("pred")
+            c = const_of(pred)
+            if c is None:
+                raise EvalError("lax.cond on a predicate that is not concrete")
+            tf, ff = args[1], args[2]
+            return self.call(tf if c else ff, list(args[3:]), {})
         if name in ("jax.lax.dynamic_slice", ):
             raise EvalError(name)
         if name == "jax.numpy.ndarray" or name == "numpy.ndarray":
